@@ -109,7 +109,15 @@ fn key_name() -> BoxedStrategy<Bytes> {
 }
 
 fn ttl() -> BoxedStrategy<Ttl> {
-    prop_oneof![5 => Just(Ttl::None), 3 => Just(Ttl::Ms(1_000_000)), 3 => select(vec![250u64, 600, 1200, 2500]).prop_map(Ttl::Ms)].boxed()
+    // long ones: a quarter of an hour, and far beyond every narrower integer a deadline could be
+    // squeezed through (2^31 ms = 24.8 days, 2^32 ms = 49.7 days, 2^31 s = 68 years)
+    prop_oneof![
+        5 => Just(Ttl::None),
+        3 => Just(Ttl::Ms(1_000_000)),
+        2 => select(vec![2_147_483_648u64, 4_294_967_296, 5_184_000_000, 315_360_000_000, 3_153_600_000_000]).prop_map(Ttl::Ms),
+        3 => select(vec![250u64, 600, 1200, 2500]).prop_map(Ttl::Ms)
+    ]
+    .boxed()
 }
 
 fn spec(big: bool) -> BoxedStrategy<Spec> {
